@@ -157,3 +157,93 @@ theorem checkCycles_exact (db : Db) (hns : NoUnsetup db) (top : Prod) (topologic
     exact ⟨rfl, a, b, hne, depPathR_to_path C hab, depPathR_to_path C hba⟩
 
 end EupsModel.Deps
+
+namespace EupsModel.Deps
+open EupsModel
+
+/-! ### without a product in two versions the pinned graph is the closure itself -/
+
+section Single
+variable {db : Db} {top : Prod} {out : List Entry}
+
+theorem xedge_pins_iff (hsv : SingleVersion db top) (hout : ∀ e ∈ out, Listed db [] top e.prod)
+    {u w : Prod} (hu : XReach db [] top u) : XEdge db (pinsOf out) u w ↔ XEdge db [] u w := by
+  constructor
+  · rintro ⟨d, hd, hj, hr⟩
+    exact ⟨d, hd, hj, by rw [← resolve_second_pass hsv hout hu hd]; exact hr⟩
+  · rintro ⟨d, hd, hj, hr⟩
+    exact ⟨d, hd, hj, by rw [pinsOf, resolve_second_pass hsv hout hu hd]; exact hr⟩
+
+theorem edge_pins_iff (hsv : SingleVersion db top) (hout : ∀ e ∈ out, Listed db [] top e.prod)
+    {u v : Prod} (hu : XReach db [] top u) : Edge db (pinsOf out) u v ↔ Edge db [] u v := by
+  constructor
+  · rintro ⟨d, hd, ht⟩
+    exact ⟨d, hd, by rw [← ht]; unfold target; rw [← resolve_second_pass hsv hout hu hd]; rfl⟩
+  · rintro ⟨d, hd, ht⟩
+    exact ⟨d, hd, by rw [← ht]; unfold target; rw [pinsOf, resolve_second_pass hsv hout hu hd]⟩
+
+theorem xreach_pins_to (hsv : SingleVersion db top) (hout : ∀ e ∈ out, Listed db [] top e.prod)
+    {u v : Prod} (h : XReach db (pinsOf out) u v) : XReach db [] top u → XReach db [] top v := by
+  induction h with
+  | refl => exact fun hu => hu
+  | head he _ ih => exact fun hu => ih (hu.tail ((xedge_pins_iff hsv hout hu).mp he))
+
+theorem xreach_pins_from (hsv : SingleVersion db top) (hout : ∀ e ∈ out, Listed db [] top e.prod)
+    {u v : Prod} (h : XReach db [] u v) : XReach db [] top u → XReach db (pinsOf out) u v := by
+  induction h with
+  | refl => exact fun _ => XReach.refl _
+  | head he _ ih =>
+    exact fun hu => XReach.head ((xedge_pins_iff hsv hout hu).mpr he) (ih (hu.tail he))
+
+/-- the tables opened in the second pass are those of the first -/
+theorem xreach_pins_iff (hsv : SingleVersion db top) (hout : ∀ e ∈ out, Listed db [] top e.prod) (w : Prod) :
+    XReach db (pinsOf out) top w ↔ XReach db [] top w :=
+  ⟨fun h => xreach_pins_to hsv hout h (XReach.refl _), fun h => xreach_pins_from hsv hout h (XReach.refl _)⟩
+
+theorem listed_pins_iff (hsv : SingleVersion db top) (hout : ∀ e ∈ out, Listed db [] top e.prod) (v : Prod) :
+    Listed db (pinsOf out) top v ↔ Listed db [] top v := by
+  constructor
+  · rintro ⟨w, hw, he⟩
+    have hw' := (xreach_pins_iff hsv hout w).mp hw
+    exact ⟨w, hw', (edge_pins_iff hsv hout hw').mp he⟩
+  · rintro ⟨w, hw, he⟩
+    exact ⟨w, (xreach_pins_iff hsv hout w).mpr hw, (edge_pins_iff hsv hout hw).mpr he⟩
+
+theorem depPathR_pins_iff (hsv : SingleVersion db top) (hout : ∀ e ∈ out, Listed db [] top e.prod) (a b : Prod) :
+    DepPathR db (pinsOf out) top a b ↔ DepPath db top a b := by
+  constructor
+  · intro h
+    induction h with
+    | refl => exact DepPath.refl _
+    | step h1 h2 _ ih =>
+      have h1' := (xreach_pins_iff hsv hout _).mp h1
+      exact DepPath.step h1' ((edge_pins_iff hsv hout h1').mp h2) ih
+  · intro h
+    induction h with
+    | refl => exact DepPathR.refl _
+    | step h1 h2 _ ih =>
+      exact DepPathR.step ((xreach_pins_iff hsv hout _).mpr h1) ((edge_pins_iff hsv hout h1).mpr h2) ih
+
+/-- `SingleVersion` is the stronger hypothesis -/
+theorem pinnedSingle_of_singleVersion (hsv : SingleVersion db top) (hout : ∀ e ∈ out, Listed db [] top e.prod) :
+    PinnedSingle db (pinsOf out) top := by
+  intro u v hu hv hn
+  refine hsv u v ?_ ?_ hn
+  · rcases hu with hu | hu
+    · exact Or.inl hu
+    · exact Or.inr ((listed_pins_iff hsv hout u).mp hu)
+  · rcases hv with hv | hv
+    · exact Or.inl hv
+    · exact Or.inr ((listed_pins_iff hsv hout v).mp hv)
+
+end Single
+
+/-- the entries of the plain listing are listed (database without unsetup lines) -/
+theorem listing_out_listed {db : Db} (hns : NoUnsetup db) {top : Prod} {f : Nat} {out : List Entry} {st : St}
+    (h : listing db f [] top = some (out, st)) : ∀ e ∈ out, Listed db [] top e.prod := by
+  obtain ⟨o, hd, rfl⟩ := listing_unfold h
+  have C := depsOf_post db hns [] _ _ _ _ _ _ hd
+  intro e he
+  exact C.out_sound e (List.mem_filter.mp he).1
+
+end EupsModel.Deps
